@@ -3,7 +3,7 @@ EXTENDS Value, TLC, Json, IOUtils, SequencesExt
 CONSTANTS UMAX
 Perturb == {-10, -7, -5, -2, -1, 1, 2, 5, 7, 10}      \* per mille: value * (1000 + p) / 1000
 IntUnits == (-8..UMAX) \cup {512, 1024, 2048, 4096, 1000, 4095} \cup {Pow2(k) : k \in 13..30} \cup {Pow2(k) + 1 : k \in 13..29} \cup {3 * Pow2(k) : k \in 13..28}
-FloatUnits == {<<Pow2(29), 1>>, <<Pow2(30), 1>>, <<Pow2(20), 1>>, <<1, 2>>, <<1, 4>>, <<3, 2>>, <<2, 1>>, <<3, 1>>, <<4, 1>>, <<13, 2>>, <<8, 1>>, <<0, 1>>, <<5, 2>>, <<-1, 2>>, <<16, 1>>,
+FloatUnits == {<<Pow2(29), 1>>, <<Pow2(30), 1>>, <<Pow2(20), 1>>, <<1, 2>>, <<1, 4>>, <<3, 2>>, <<2, 1>>, <<3, 1>>, <<4, 1>>, <<13, 2>>, <<8, 1>>, <<0, 1>>, <<5, 2>>, <<-1, 2>>, <<16, 1>>, <<1, 1>>, <<32, 1>>, <<64, 1>>, <<128, 1>>, <<1024, 1>>, <<6, 1>>, <<12, 1>>, <<1, 8>>, <<-2, 1>>,
                <<1, 0>>, <<-1, 0>>, <<0, 0>>}     \* denominator 0: +infinity, -infinity, not-a-number (numeric inputs too)
 Counts == -3..24
 Cases == {[kind |-> "value", v |-> v] : v \in Vocabulary} \cup
